@@ -6,7 +6,7 @@ PROP = dict(
     bounded_budget=dict(quick=45, thorough=420),
     assumptions=[],
     trusted_base=['z3 5.1 / cvc5 1.0.3', 'pyvc symbolic executor and its encoding of Python (DESIGN.md section 2.3)', 'CPython 3.12, PLY 3.11 (A-PLY)'],
-    manifest=dict(text='Bounded: single-edit mutants of 6 seed texts at every token position, all token sequences of length <=3/4, tokens in 15 statement contexts, arbitrary strings, input histories; only the documented exceptions, bounded time, rejected text leaves the loader unchanged.',
+    manifest=dict(text='Finite core (tier F, 15 obligations): no token regex of the loader is exponentially ambiguous; the SQL grammar has no unresolved conflict. Bounded: single-edit mutants of 6 seed texts at every token position, all token sequences of length <=3/4, tokens in 15 statement contexts, arbitrary strings, input histories; only the documented exceptions, bounded time, rejected text leaves the loader unchanged.',
                   note='PLY raises from t_error/p_error and leaves the loader untouched (A-PLY).',
-                  technique='bounded stand-in: run-time contracts on the real functions driven by exhaustive small-scope enumeration (labelled bounded, never counted as proved)'),
+                  technique='bounded stand-in (run-time contracts on the real functions driven by small-scope enumeration; labelled bounded, never counted as proved) decides the property sentence; finite-state obligations decided exactly on the LALR(1) table / token regular expressions regenerated from the current source, reported separately as tier F'),
 )
